@@ -50,6 +50,7 @@ let () =
       let substs : (int, (int * int) list) Hashtbl.t = Hashtbl.create 8 in   (* sid -> [(var, slot)] *)
       let subst_tts : (int, (int * vt) list) Hashtbl.t = Hashtbl.create 8 in
       let gc_pending = ref false and dropall_gc = ref false in
+      let zok = ref false in
       let order_req : int list option ref = ref None in
       let prev_v2l : int array ref = ref [||] in
       let last_gc = ref (-1) in
@@ -323,44 +324,26 @@ let () =
               | ("PICK" | "PICKDD" | "PICKSET" | "PICKUNI") :: _ -> Pick.check ~kname ~n ~ps ~get ~getd ~fail ~check p.pstep t p.pres
               | (("SINGLETON" | "EMPTY" | "BASE" | "SUBSET0" | "SUBSET1" | "CHANGE" | "UNION" | "INTSEC" | "DIFF" | "MAKENODE") as op) :: dst :: rest ->
                 (* operand families as captured when the op was issued (the destination may alias an operand);
-                   only valid if no variables were added in between *)
-                let fam s =
+                   only valid if no variables were added in between.  Expected family: extracted spec layer
+                   (DD/FamSpec.v); the extracted model (DD/ZbddOps.v) is replayed on the operands' edges when
+                   their handles still denote the captured families (ocaml/zfam.ml) *)
+                let opnd s =
                   let sl = slot_of s in
-                  if List.mem_assoc sl p.pcapf && p.pcap_n = n then Some (List.assoc sl p.pcapf)
-                  else if List.mem sl p.pdst then None
-                  else Hashtbl.find_opt fams sl in
-                let famd s = Hashtbl.find_opt fams (slot_of s) in
-                let exp =
-                  match op, rest with
-                  | "SINGLETON", [ v ] -> Some [ 1 lsl int_of_string v ]
-                  | "EMPTY", _ -> Some []
-                  | "BASE", _ -> Some [ 0 ]
-                  | "SUBSET0", [ a; v ] ->
-                    Option.map (fun fa -> List.filter (fun s -> (s lsr int_of_string v) land 1 = 0) fa) (fam a)
-                  | "SUBSET1", [ a; v ] ->
-                    let v = int_of_string v in
-                    Option.map (fun fa -> List.sort_uniq compare (List.filter_map (fun s -> if (s lsr v) land 1 = 1 then Some (s land lnot (1 lsl v)) else None) fa)) (fam a)
-                  | "CHANGE", [ a; v ] ->
-                    let v = int_of_string v in
-                    Option.map (fun fa -> List.sort_uniq compare (List.map (fun s -> s lxor (1 lsl v)) fa)) (fam a)
-                  | "UNION", [ a; b ] -> (match fam a, fam b with Some x, Some y -> Some (List.sort_uniq compare (x @ y)) | _ -> None)
-                  | "INTSEC", [ a; b ] -> (match fam a, fam b with Some x, Some y -> Some (List.filter (fun s -> List.mem s y) x) | _ -> None)
-                  | "DIFF", [ a; b ] -> (match fam a, fam b with Some x, Some y -> Some (List.filter (fun s -> not (List.mem s y)) x) | _ -> None)
-                  | "MAKENODE", [ v; hi; lo ] ->
-                    let v = int_of_string v in
-                    (match fam hi, fam lo with
-                     | Some x, Some y -> Some (List.sort_uniq compare (List.map (fun s -> s lor (1 lsl v)) x @ y))
-                     | _ -> None)
-                  | _ -> None in
-                (match exp, famd dst with
-                 | Some e, Some g ->
-                   check "C09";
-                   Buffer.add_string digest (Printf.sprintf "%d:fam%s;" p.pstep (String.concat "," (List.map string_of_int g)));
-                   if e <> g then
-                     fail p.pstep "C09" "prop"
-                       (Printf.sprintf "%s: family {%s}, expected {%s}" what
-                          (String.concat "," (List.map string_of_int g)) (String.concat "," (List.map string_of_int e)))
-                 | _ -> stat "unresolved" 1)
+                  let cur = Hashtbl.find_opt fams sl in
+                  let f =
+                    if List.mem_assoc sl p.pcapf && p.pcap_n = n then Some (List.assoc sl p.pcapf)
+                    else if List.mem sl p.pdst then None
+                    else cur in
+                  match f with
+                  | None -> None
+                  | Some f ->
+                    let e = if cur = Some f then List.assoc_opt sl ps.handles else None in
+                    Some { Zfam.ofam = f; Zfam.oedge = e } in
+                let dstv =
+                  match Hashtbl.find_opt fams (slot_of dst) with
+                  | Some g -> Some { Zfam.ofam = g; Zfam.oedge = List.assoc_opt (slot_of dst) ps.handles }
+                  | None -> None in
+                Zfam.check_op ~ps ~zok:!zok ~opnd ~dst:dstv ~fail ~check ~digest p.pstep what op rest
               | _ -> ()
             with Bad (prop, kind, msg) -> fail p.pstep prop kind msg)
           (List.rev !pending);
@@ -438,6 +421,10 @@ let () =
           ps.handles;
         if kname = "zbdd" then
           List.iter (fun (slot, e) -> match family ps e with Some f -> Hashtbl.replace fams slot f | None -> ()) ps.handles;
+        (* C09: the hypothesis of the model theorems (well-formed ZBDD table with both terminals) *)
+        if kname = "zbdd" && List.mem "C09" !props then (
+          zok := Model.zbdd_ok_b s;
+          if not !zok then fail step "C09" "corr" "zbdd_ok_b false on a ZBDD snapshot (hypothesis of the C09 theorems)");
         tt_n := n;
         (* persistence: a handle that was not reassigned denotes the same function *)
         Hashtbl.iter
@@ -461,6 +448,8 @@ let () =
                 check "C09";
                 let exp = Array.init (1 lsl n) (fun idx -> if List.mem idx f then 1 else 0) in
                 if exp <> t then fail step "C09" "prop" (Printf.sprintf "h%d: Boolean view %s differs from family view" slot (show_vt t))
+                else if List.mem "C09" !props && not (Zfam.bool_view_ok ps f t) then
+                  fail step "C09" "corr" (Printf.sprintf "h%d: extracted fam_bool differs from the Boolean view %s" slot (show_vt t))
               | None -> ())
             fams;
         (* C01: canonicity over all handle pairs (grouped by table) *)
@@ -535,6 +524,9 @@ let () =
               (match toks with [ "SNAP" ] | [ "GC" ] -> () | _ -> gc_pending := false; dropall_gc := !dropall_gc && false);
               match toks with
               | [ "SNAP" ] -> (try process_snapshot i res with Failure m -> fail i "C03" "corr" ("driver: " ^ m))
+              (* C07: block markers, the event trace (replayed by ocaml/c07_main.ml) and a collection under
+                 the shared lock inside a parallel block carry no obligations here *)
+              | ("PAR" | "ENDPAR" | "EV" | "EVSTAT" | "PGC") :: _ -> ()
               | "VARS" :: k :: _ -> nvars := !nvars + int_of_string k
               | [ "DROP"; a ] | [ "DROPT"; a ] -> invalidate (slot_of a)
               | [ "DROPALL" ] -> Hashtbl.reset tts; Hashtbl.reset fams; dropall_gc := true
